@@ -49,6 +49,8 @@ SCALES = {
     "tenth": lambda r, N: r * 0.1,
     "mixed": lambda r, N: r + 0.5 * (r % 2),
     "big": lambda r, N: r * 1e6,
+    # whole numbers beyond the range of a 64-bit integer (still "integer times": default precision 0)
+    "e19": lambda r, N: r * 1e19,
     "pow10": lambda r, N: r * 10.0,
     "neg": lambda r, N: (r - N) * 12345.0,
     "negbig": lambda r, N: r * 1e6 - 5e5,
@@ -1071,7 +1073,7 @@ def shards(tier, seed):
     quick = tier == "quick"
     # --- newick, single-tree members, full grid
     if quick:
-        sc = ["int", "quarter", "tenth", "mixed", "big", "neg", "negbig"]
+        sc = ["int", "quarter", "tenth", "mixed", "big", "neg", "negbig", "e19"]
         for n in (0, 1, 2, 3):
             _split(specs, "nw", dict(N=n, G=1, times="id"), 24, scales=sc, grid="full")
         _split(specs, "nw", dict(N=4, G=1, times="id"), 6, scales=sc, grid="full")
@@ -1080,7 +1082,7 @@ def shards(tier, seed):
         _split(specs, "nw", dict(N=3, G=2, times="id"), 40, scales=["int", "neg"], grid="reduced")
         _split(specs, "nw", dict(N=3, G=3, times="id"), 100, scales=["quarter"], grid="reduced")
     else:
-        sc = ["int", "quarter", "tenth", "mixed", "big", "neg", "negbig", "negfrac"]
+        sc = ["int", "quarter", "tenth", "mixed", "big", "neg", "negbig", "negfrac", "e19"]
         for n in (0, 1, 2, 3):
             _split(specs, "nw", dict(N=n, G=1, times="id"), 24, scales=sc, grid="full")
         _split(specs, "nw", dict(N=4, G=1, times="id"), 8, scales=sc, grid="full")
